@@ -141,7 +141,7 @@ class _R:
             given = dict((n, v) for n, v in fields)
             order = gv.CALL_FIELDS[name]
             items = []
-            positional = self.level and self.flip(0.06) and name not in ("PModel",)
+            positional = self.level and self.flip(0.06) and name not in ("PModel", "PAlias")
             # positional prefix only for leading fields present
             if positional:
                 npos = 0
@@ -166,7 +166,8 @@ class _R:
             if self.level and self.flip(0.2):
                 defaults = {"Point": ("y", "0"), "FPoint": ("y", "0"), "Box": ("name", "'box'"),
                             "APoint": ("c", "5"), "AFrozen": ("v", "None"), "PModel": ("opt", "None"),
-                            "NT": ("b", "0"), "TNT": ("q", "'q'"), "Outer.Cfg": ("n", "0")}
+                            "NT": ("b", "0"), "TNT": ("q", "'q'"), "Outer.Cfg": ("n", "0"),
+                            "APriv": ("y", "2"), "PAlias": ("other", "3")}
                 f, txt = defaults[name]
                 if f not in given:
                     items.append(f"{f}={txt}")
